@@ -12,8 +12,8 @@ Record section := { sec_wr : list nat;      (* the @shared arrays this inner loo
                     sec_body : stmt }.
 
 Record oblock := {
-  ob_odims : list bound;            (* extents of the nested @outer loops (1 or 2) *)
-  ob_idims : list bound;            (* extents of the nested @inner loops (1 or 2), the same for every section *)
+  ob_odims : list bound;            (* extents of the nested @outer loops (1 to 3) *)
+  ob_idims : list bound;            (* extents of the nested @inner loops (1 to 3), the same for every section *)
   ob_kinds : list gkind;            (* how this outer block uses each global array *)
   ob_shared : list (nat * nat);     (* (stride, size) of each @shared array *)
   ob_secs : list section
@@ -26,13 +26,10 @@ Record env := { v_args : list Z; v_uninit : Z }.
 Definition extent (args : list Z) (b : bound) : nat :=
   Z.to_nat (match b with BConst z => z | BArg n => nth n args 0 end).
 Definition extents (args : list Z) (l : list bound) : nat := fold_left Nat.mul (map (extent args) l) 1%nat.
-Definition second_extent (args : list Z) (l : list bound) : Z :=
-  match l with _ :: b :: _ => Z.of_nat (extent args b) | _ => 1 end.
-
 Definition mk_senv (args : list Z) (ob : oblock) : senv :=
   {| e_args := args;
-     e_n1 := second_extent args (ob_odims ob);
-     e_m1 := second_extent args (ob_idims ob);
+     e_od := map (fun b => Z.of_nat (extent args b)) (ob_odims ob);
+     e_id := map (fun b => Z.of_nat (extent args b)) (ob_idims ob);
      e_mi := extents args (ob_idims ob);
      e_kinds := ob_kinds ob;
      e_sst := map fst (ob_shared ob) |}.
